@@ -48,6 +48,7 @@ void observable_int(tulz::Observable<int> &o, int v) {
     o += v; o -= v; o *= v; o /= v; o += 1;
     o++; ++o; o--; --o;
     o.apply([](int &x) { x = 1; });
+    o.apply([](int &x) { return x -= 1; });          // a callable that returns something: whichever apply() overload takes it is analysed
     (void)*o; (void)o.value();
 }
 
@@ -64,5 +65,6 @@ void observable_string(tulz::Observable<std::string> &o, std::string v) {
     o = v; o = "lit"; o = std::move(v);
     o += std::string("y");
     o.apply([](std::string &x) { x.clear(); });
+    o.apply([](std::string &x) { x.pop_back(); return x.size(); });
 }
 }
